@@ -35,6 +35,7 @@ type exitEdge struct {
 	cond    string
 	st      *State
 	results []Val
+	block   *ssa.BasicBlock
 }
 
 type inEdge struct {
@@ -147,6 +148,9 @@ func (fr *frame) oblig(kind string, props []string, pos token.Pos, text, reach, 
 	if fr.prefix != "" {
 		base = fr.prefix + ">" + base
 	}
+	if ft.variant != "" {
+		base = "[" + ft.variant + "]" + base
+	}
 	ft.occ[base]++
 	name := base
 	if n := ft.occ[base]; n > 1 {
@@ -222,15 +226,20 @@ func (fr *frame) mergeEdges(edges []inEdge, label string) (string, *State) {
 		}
 		st.heaps[k] = ft.define(k, ft.e.u.heaps[k], t)
 	}
-	// defers must agree
+	// defer stacks: one must be a prefix of the other (conditionally registered
+	// defers carry their own condition)
 	st.defers = edges[0].st.defers
 	for _, e := range edges[1:] {
-		if len(e.st.defers) != len(st.defers) {
-			ft.note("defer stacks differ at join in %s", fr.fn)
-			if len(e.st.defers) > len(st.defers) {
-				st.defers = e.st.defers
+		a, b := st.defers, e.st.defers
+		if len(b) > len(a) {
+			a, b = b, a
+		}
+		for i := range b {
+			if a[i] != b[i] {
+				ft.note("defer stacks differ at join in %s: not modelled", fr.fn)
 			}
 		}
+		st.defers = a
 	}
 	return reach, st
 }
@@ -279,7 +288,7 @@ func (fr *frame) execBlock(b *ssa.BasicBlock, edges []inEdge, in map[*ssa.BasicB
 				}
 				res = append(res, v)
 			}
-			fr.exits = append(fr.exits, exitEdge{reach, st, res})
+			fr.exits = append(fr.exits, exitEdge{reach, st, res, b})
 			return
 		case *ssa.Panic:
 			// explicit panic: exceptional edge
@@ -387,7 +396,7 @@ func (fr *frame) finishExceptional(xedges []inEdge, in map[*ssa.BasicBlock][]inE
 		reach, st := fr.mergeEdges(g, "xexit")
 		reach = ft.define("xreach", SBool, reach)
 		if len(st.defers) == 0 {
-			fr.xexits = append(fr.xexits, exitEdge{reach, st, nil})
+			fr.xexits = append(fr.xexits, exitEdge{reach, st, nil, nil})
 			continue
 		}
 		// run defers LIFO; a panic inside a deferred call replaces the current one.
@@ -397,7 +406,7 @@ func (fr *frame) finishExceptional(xedges []inEdge, in map[*ssa.BasicBlock][]inE
 		for i := len(defers) - 1; i >= 0; i-- {
 			d := defers[i]
 			var sub []inEdge
-			reach2 := fr.doCall(nil, d.call, d.fnv, d.args, st, reach, &sub, d.pos)
+			reach2 := fr.runDeferred(d, st, reach, &sub)
 			// throw inside deferred call: still panicking; merge back
 			if len(sub) > 0 {
 				all := append([]inEdge{}, sub...)
@@ -412,7 +421,7 @@ func (fr *frame) finishExceptional(xedges []inEdge, in map[*ssa.BasicBlock][]inE
 		}
 		fr.inExc = false
 		stillPanicking := ft.heapTerm(st, panickingHeap)
-		fr.xexits = append(fr.xexits, exitEdge{and(reach, stillPanicking), st, nil})
+		fr.xexits = append(fr.xexits, exitEdge{and(reach, stillPanicking), st, nil, nil})
 		rec := and(reach, not(stillPanicking))
 		if rec != "false" {
 			if fr.fn.Recover != nil {
@@ -426,7 +435,7 @@ func (fr *frame) finishExceptional(xedges []inEdge, in map[*ssa.BasicBlock][]inE
 				for i := 0; i < rs.Len(); i++ {
 					res = append(res, Val{T: ft.e.u.zero(rs.At(i).Type())})
 				}
-				fr.exits = append(fr.exits, exitEdge{rec, st, res})
+				fr.exits = append(fr.exits, exitEdge{rec, st, res, nil})
 			}
 		}
 	}
@@ -576,6 +585,7 @@ func (fr *frame) execInstr(ins ssa.Instruction, st *State, reach string, xedges 
 		} else {
 			fnv = fr.get(t.Call.Value)
 		}
+		fr.siteAsserts(t, args, st, reach)
 		return fr.doCall(t, &t.Call, fnv, args, st, reach, xedges, t.Pos())
 	case *ssa.Defer:
 		var args []Val
@@ -586,14 +596,13 @@ func (fr *frame) execInstr(ins ssa.Instruction, st *State, reach string, xedges 
 		if _, isB := t.Call.Value.(*ssa.Builtin); !isB {
 			fnv = fr.get(t.Call.Value)
 		}
-		nd := append(append([]*deferred{}, st.defers...), &deferred{call: &t.Call, args: args, fnv: fnv, pos: t.Pos()})
+		nd := append(append([]*deferred{}, st.defers...), &deferred{call: &t.Call, args: args, fnv: fnv, pos: t.Pos(), cond: reach})
 		st.defers = nd
 	case *ssa.RunDefers:
 		defers := st.defers
 		st.defers = nil
 		for i := len(defers) - 1; i >= 0; i-- {
-			d := defers[i]
-			reach = fr.doCall(nil, d.call, d.fnv, d.args, st, reach, xedges, d.pos)
+			reach = fr.runDeferred(defers[i], st, reach, xedges)
 		}
 	case *ssa.Go, *ssa.Send, *ssa.Select, *ssa.MakeChan:
 		ft.note("concurrency construct %T in %s: out of subset", ins, fr.fn)
@@ -1188,4 +1197,100 @@ func (ft *FT) bytesStr(st *State, x Term) Term {
 	u.axiom("(forall ((a (Array Int Int)) (o Int) (n Int)) (! (=> (>= n 0) (= (strlen (str$of$uint8 a o n)) n)) :pattern ((str$of$uint8 a o n))))")
 	s := ft.define("str", SStr, sx(fn, sel(ft.heapTerm(st, h), sx("sbase", x.S)), sx("soff", x.S), sx("slen", x.S)))
 	return Term{s, SStr}
+}
+
+// siteAsserts: "assert at \"text\"#k EXPR" clauses bound to call instructions.
+func (fr *frame) siteAsserts(call *ssa.Call, args []Val, st *State, reach string) {
+	if fr.fc == nil || len(fr.fc.Asserts) == 0 {
+		return
+	}
+	ft := fr.ft
+	e := ft.e
+	for _, a := range fr.fc.Asserts {
+		if a.E == nil {
+			continue
+		}
+		target := fr.assertTarget(a)
+		if target != call {
+			continue
+		}
+		env := fr.ownEnv(st, fr.entry, call.Block())
+		for i, v := range args {
+			if i < len(call.Call.Args) {
+				env.vars[fmt.Sprintf("arg%d", i)] = SVal{T: ft.termOf(v, call.Call.Args[i].Type()), Typ: call.Call.Args[i].Type()}
+			}
+		}
+		goal, err := env.evalBool(a.E)
+		if err != nil {
+			e.contractError(a, err)
+			continue
+		}
+		if a.Kind == "assume" {
+			ft.assume(reach, goal)
+			ft.assumed["ASSUME at "+a.Site+": "+a.Text] = true
+			continue
+		}
+		fr.oblig("assert", a.Props, call.Pos(), a.name(), reach, goal)
+	}
+}
+
+func (fr *frame) assertTarget(a *Clause) *ssa.Call {
+	e := fr.ft.e
+	var cands []*ssa.Call
+	for _, b := range fr.fn.Blocks {
+		for _, ins := range b.Instrs {
+			if c, ok := ins.(*ssa.Call); ok && c.Pos().IsValid() {
+				if strings.Contains(e.sourceLine(c.Pos()), a.Site) {
+					cands = append(cands, c)
+				}
+			}
+		}
+	}
+	sort.Slice(cands, func(i, j int) bool { return cands[i].Pos() < cands[j].Pos() })
+	// several SSA calls may share one source line (nested calls): keep the
+	// outermost = the one whose position is the '(' matching the text; use
+	// the last call on the first matching line for occurrence k.
+	var lines []int
+	byLine := map[int][]*ssa.Call{}
+	for _, c := range cands {
+		ln := e.fset.Position(c.Pos()).Line
+		if _, ok := byLine[ln]; !ok {
+			lines = append(lines, ln)
+		}
+		byLine[ln] = append(byLine[ln], c)
+	}
+	if a.Occ < 1 || a.Occ > len(lines) {
+		e.contractError(a, fmt.Errorf("site %q#%d not found in %s (%d candidates)", a.Site, a.Occ, fr.fn.Name(), len(lines)))
+		return nil
+	}
+	l := byLine[lines[a.Occ-1]]
+	// choose the call whose callee name occurs in the site text, else the last
+	for _, c := range l {
+		if sc := c.Call.StaticCallee(); sc != nil && strings.Contains(a.Site, sc.Name()+"(") {
+			return c
+		}
+	}
+	return l[len(l)-1]
+}
+
+// runDeferred executes a deferred call; a defer registered under a narrower
+// condition than the current one runs conditionally.
+func (fr *frame) runDeferred(d *deferred, st *State, reach string, xedges *[]inEdge) string {
+	ft := fr.ft
+	if d.cond == reach || d.cond == "true" || d.cond == "" {
+		return fr.doCall(nil, d.call, d.fnv, d.args, st, reach, xedges, d.pos)
+	}
+	before := st.clone()
+	taken := ft.define("defer_taken", SBool, and(reach, d.cond))
+	r2 := fr.doCall(nil, d.call, d.fnv, d.args, st, taken, xedges, d.pos)
+	skipped := ft.define("defer_skipped", SBool, and(reach, not(d.cond)))
+	edges := []inEdge{{skipped, before, nil}}
+	if r2 != "false" {
+		edges = append(edges, inEdge{r2, st.clone(), nil})
+	}
+	nreach, nst := fr.mergeEdges(edges, "after_defer")
+	defers := st.defers
+	*st = *nst
+	st.defers = defers
+	return ft.define("reach_after_defer", SBool, nreach)
 }
